@@ -80,6 +80,27 @@ result, (e) calls from a second thread.  "script" / "cliseq" / "multiset" are th
   alone except the == of the archive clause (last of the three exports), results_from_json never called directly.
 Kind script: see k_script.  Kind cliseq: see k_cliseq.
 
+Input dimensions of the CSV clause ("parses back correctly") and the stream that varies each one:
+
+  dimension                              values                                                                    stream
+  strings in the documented columns      NASTY pool (, " LF CR+other, non-ASCII, astral, tab ; \\ ' DEL, empty)       query built cli script dialect
+  kind of result item                    no prediction / unreportable / failed strict / warnings / no file         query built
+  exporter keyword options, no dialect   quoting, delimiter, quotechar, lineterminator (CSV_OPTS)                  script
+  exporter given dialect=                registered name ('excel' 'excel-tab' 'unix'), the csv.Dialect class, an    dialect
+                                         instance of it; harness dialects registered by keyword / registered as
+                                         a class / passed as class / as instance: delimiter TAB ; | : ,  quoting
+                                         NONE+escapechar / ALL / NONNUMERIC / MINIMAL (/ STRINGS / NOTNULL where the
+                                         csv module has them), doublequote False + escapechar, quotechar ', escapechar
+                                         \\ or !, lineterminator LF or CRLF; each ALONE and combined with keyword
+                                         overrides (quoting, lineterminator, delimiter, quotechar, escapechar,
+                                         doublequote, strict)
+  how the file is read back              csv.reader AND csv.DictReader given EXACTLY the dialect object and the     dialect
+                                         keyword options the exporter was constructed with (script: the reader is
+                                         told delimiter / quotechar / dialect only)
+  Before this row: the only dialects ever passed were 'unix' and 'excel-tab' (script), whose quoting / line terminator can be replaced by the
+  exporter's no-dialect defaults without the file ceasing to parse; no dialect whose QUOTING or ESCAPING the reader depends on was exported.
+Kind dialect: see k_dialect.
+
 The unchanged exporter writes a lone carriage return unquoted (DESIGN.md 6-i).  The harness probes
 once whether the implementation under test quotes it; if not, the designated case
 (kind 'lonecr', label 'a\\rb') reports it and lone CRs are kept out of the random name pools so
@@ -111,6 +132,14 @@ RULE = ('results: a result set (real query via API or CLI on a generated databas
         'caller objects compared with snapshots, at the end fresh default exporters must reproduce the first texts; non-trivial when '
         'some exporter / reader / result set is used by two steps (counters script:good-call-after-failed-call-on-same-object, '
         'script:exporter-or-reader-crosses-genome-sets-or-databases).  '
+        'dialect: one result set (real query or hand-built) exported by 1-14 CSVResultsExporter instances, each constructed with a csv dialect '
+        '(standard name / class / instance, or a harness dialect registered by keyword / as class, or passed as class / instance) and / or keyword '
+        'overrides; each output read back by csv.reader and csv.DictReader given exactly the same dialect and keywords and compared with the documented '
+        'cells from the harness tables (a cell the reader converted to float under QUOTE_NONNUMERIC / QUOTE_STRINGS is compared as a number, None as the '
+        'empty string); an export is judged when its configuration can represent every string (an escapechar when quoting is NONE or doublequote is '
+        'False) and either quotes / escapes a carriage return (quoting ALL / NONNUMERIC / STRINGS / NOTNULL, or CR in the line terminator) or no expected '
+        'cell holds one (known finding C11-csv-lone-cr); non-trivial when a judged export was given a dialect and some expected cell holds a character '
+        'that is special under it (delimiter, quote, escape character, CR, LF) or a non-ASCII one (counters dialect:*).  '
         'cliseq: 3-6 CLI invocations in one process over two databases, one output path, formats / --strict / -c varying, failing '
         'invocations in between; non-trivial when two invocations succeed.  '
         'rows: rows of strings through the exporter\'s csv writer, non-trivial when a field needs '
@@ -122,6 +151,11 @@ TRUSTED = ['CPython csv / json modules (modelled in Model/C11Csv.v, C11Json.v; s
            'stream multiset: reader-instance state is explored by generated schedules (8 shapes), not proved absent: the model reader is a pure '
            'function of (database rows, archive text)',
            'json.loads on whole documents (only the string scanner and the document writer are modelled)',
+           'stream dialect: CPython csv.writer / csv.reader round trip under ONE dialect other than the default one (QUOTE_NONE + escapechar, QUOTE_ALL, '
+           'QUOTE_NONNUMERIC float conversion, doublequote False, other delimiters / quote characters) is trusted, not modelled (Model/C11Csv.v is the default '
+           'dialect only): this stream has no model side, every export is judged by the property predicate alone (csv.reader / csv.DictReader with the '
+           'exporter\'s own dialect and keywords against the harness tables); the dialect space is sampled (3 standard + a pool of harness dialects x 4-7 ways '
+           'of passing them x single keyword overrides enumerated on two designated result sets, then random combinations), not proved',
            'streams script / cliseq: hidden state and aliasing (instance, class, module, thread level; caller objects written to; state left by a failed '
            'call) are explored by generated call sequences over shared objects, not proved absent: the model is a pure function of one result set, so '
            'it says what EVERY call of a sequence has to produce but not that the implementation has no memory.  Within a script only the first '
@@ -140,6 +174,9 @@ ASSUMPTIONS = ['CSV read back with csv.reader on a text stream opened with newli
                'kind script, CSV exporters with format options: the reader is told the delimiter / quote character / dialect the exporter was given '
                '(quoting style and line terminator need not be told); non-default options are chosen so that a carriage return is always quoted '
                '(known defect C11-csv-lone-cr is reported once, by kind lonecr)',
+               'kind dialect: the reader of the file uses the same csv dialect and keyword options as the exporter; dialects that cannot represent every '
+               'string (QUOTE_NONE or doublequote=False without escapechar: csv.writer raises), skipinitialspace=True (csv.reader strips what the writer '
+               'wrote) and dialects that leave a carriage return unquoted on files that hold one (C11-csv-lone-cr) are outside the judged domain',
                'kinds script / cliseq: no entry point of results.py is advertised as thread-safe or fork-safe; calls are sequential (a worker-thread '
                'export is started and joined inside its step), one reader per (number, session)']
 BATCH = 400
@@ -1701,8 +1738,223 @@ def k_cliseq(ctx, cases):
 		shutil.rmtree(qdir, ignore_errors=True)
 
 
+# ---- the DIALECT dimension of the CSV export ------------------------------------------------
+
+_QUOTING_D = {'minimal': csv.QUOTE_MINIMAL, 'all': csv.QUOTE_ALL, 'nonnumeric': csv.QUOTE_NONNUMERIC, 'none': csv.QUOTE_NONE}
+for _n in ('strings', 'notnull'):       # Python >= 3.12
+	if hasattr(csv, 'QUOTE_' + _n.upper()):
+		_QUOTING_D[_n] = getattr(csv, 'QUOTE_' + _n.upper())
+_QUOTING_NAME = {v: k for k, v in _QUOTING_D.items()}
+STD_DIALECTS = {'excel': csv.excel, 'excel-tab': csv.excel_tab, 'unix': csv.unix_dialect}
+_EXCEL = dict(delimiter=',', quotechar='"', escapechar=None, doublequote=True, skipinitialspace=False, lineterminator='\r\n', quoting='minimal')
+# harness dialects (attributes not named are those of 'excel'); every one can represent every string
+HARNESS_DIALECTS = [
+	dict(delimiter='\t', quoting='none', escapechar='\\', lineterminator='\n'),                          # escape-based TSV
+	dict(delimiter='\t', quoting='none', escapechar='\\', quotechar=None, lineterminator='\r\n'),
+	dict(delimiter='|', quoting='none', escapechar='!', lineterminator='\r\n'),
+	dict(delimiter=';', quoting='all', lineterminator='\r\n'),
+	dict(delimiter='\t', quoting='all', quotechar="'", lineterminator='\n'),
+	dict(delimiter='|', quoting='nonnumeric', lineterminator='\n'),
+	dict(delimiter=';', quoting='nonnumeric', quotechar="'", doublequote=False, escapechar='\\', lineterminator='\r\n'),
+	dict(delimiter=',', quoting='minimal', doublequote=False, escapechar='\\', lineterminator='\r\n'),
+	dict(delimiter=';', quoting='minimal', quotechar="'", lineterminator='\r\n'),
+	dict(delimiter=':', quoting='minimal', escapechar='!', lineterminator='\n'),
+	dict(delimiter='\t', quoting='minimal', lineterminator='\n'),
+	dict(delimiter='|', quoting='minimal', doublequote=False, escapechar='!', quotechar="'", lineterminator='\n'),
+] + ([dict(delimiter='\t', quoting='strings', lineterminator='\n')] if 'strings' in _QUOTING_D else []) \
+  + ([dict(delimiter=',', quoting='notnull', lineterminator='\r\n')] if 'notnull' in _QUOTING_D else [])
+# keyword arguments given to the exporter next to (overriding) the dialect
+DIALECT_OVERRIDES = [{'quoting': 'all'}, {'quoting': 'minimal'}, {'quoting': 'nonnumeric'}, {'quoting': 'none', 'escapechar': '\\'},
+                     {'lineterminator': '\r\n'}, {'lineterminator': '\n'}, {'delimiter': ';'}, {'delimiter': '\t'}, {'quotechar': "'"},
+                     {'escapechar': '\\'}, {'doublequote': False, 'escapechar': '\\'}, {'strict': True},
+                     {'delimiter': '|', 'quoting': 'all', 'lineterminator': '\r\n'}, {'quoting': 'nonnumeric', 'lineterminator': '\r\n'}]
+STD_FORMS = ['name', 'stdclass', 'stdinstance']
+HARNESS_FORMS = ['registered', 'registered-class', 'class', 'instance']
+NUMERIC_COLUMNS = (3, 4, 5, 9, 10)        # ncbi_id, threshold, distance, ncbi_id, threshold
+
+
+def _dialect_effective(desc, opts):
+	"""the csv parameters a writer / reader constructed with dialect `desc` and keywords `opts` works with (harness's own
+	reading of the csv documentation: keywords override the dialect; a harness dialect names its attributes over those of
+	'excel'; without a dialect the exporter's own defaults are LF and QUOTE_MINIMAL).  None: malformed description"""
+	try:
+		if desc is None:
+			eff = dict(_EXCEL, lineterminator='\n')
+		elif desc['form'] in STD_FORMS:
+			d = STD_DIALECTS[desc['name']]
+			eff = {k: getattr(d, k) for k in _EXCEL}
+			eff['quoting'] = _QUOTING_NAME[eff['quoting']]
+		elif desc['form'] in HARNESS_FORMS:
+			eff = dict(_EXCEL, **desc['params'])
+		else:
+			return None
+		eff.update({k: v for k, v in opts.items() if k != 'strict'})
+		if set(eff) != set(_EXCEL) or eff['quoting'] not in _QUOTING_D or set(opts) - set(_EXCEL) - {'strict'}:
+			return None
+		return eff
+	except (KeyError, TypeError, AttributeError):
+		return None
+
+
+def _dialect_in_domain(eff):
+	"""can this configuration represent every string, and does csv.reader hand back what csv.writer was given?"""
+	if eff is None or eff['skipinitialspace']:
+		return False
+	d, q, e = eff['delimiter'], eff['quotechar'], eff['escapechar']
+	if not isinstance(d, str) or len(d) != 1 or d in '\r\n 0123456789.+-einfa' or eff['lineterminator'] not in ('\n', '\r\n'):
+		return False
+	if eff['quoting'] != 'none' and (not isinstance(q, str) or len(q) != 1):
+		return False
+	if (eff['quoting'] == 'none' or not eff['doublequote']) and e is None:
+		return False
+	specials = [c for c in (d, q, e) if c is not None]
+	return len(set(specials)) == len(specials) and not any(c in '\r\n' for c in specials)
+
+
+def _dialect_cr_safe(eff):
+	"""a carriage return in a field is quoted / escaped by CPython <= 3.12 (known finding C11-csv-lone-cr otherwise)"""
+	return eff['quoting'] in ('all', 'nonnumeric', 'strings', 'notnull') or '\r' in eff['lineterminator']
+
+
+def _dialect_kwargs(desc, opts, registered):
+	"""keyword arguments for CSVResultsExporter / csv.reader / csv.DictReader: the SAME dialect object and options for all"""
+	kw = dict(opts)
+	if 'quoting' in kw:
+		kw['quoting'] = _QUOTING_D[kw['quoting']]
+	if desc is None:
+		return kw
+	form = desc['form']
+	if form == 'name':
+		kw['dialect'] = desc['name']
+	elif form == 'stdclass':
+		kw['dialect'] = STD_DIALECTS[desc['name']]
+	elif form == 'stdinstance':
+		kw['dialect'] = STD_DIALECTS[desc['name']]()
+	else:
+		params = dict(_EXCEL, **desc['params'])
+		params['quoting'] = _QUOTING_D[params['quoting']]
+		name = f'c11-harness-dialect-{len(registered)}'
+		if form == 'registered':
+			csv.register_dialect(name, **{k: params[k] for k in desc['params']})       # the other attributes: csv's defaults (= 'excel')
+			registered.append(name)
+			kw['dialect'] = name
+		else:
+			cls = type('C11HarnessDialect', (csv.Dialect,), params)
+			if form == 'registered-class':
+				csv.register_dialect(name, cls)
+				registered.append(name)
+				kw['dialect'] = name
+			else:
+				kw['dialect'] = cls if form == 'class' else cls()
+	return kw
+
+
+def _cells_differ(got, exp_rows):
+	"""`got`: rows a csv reader produced; the first difference from the expected cells, or None.  A reader told
+	QUOTE_NONNUMERIC / QUOTE_STRINGS converts unquoted cells to float and may give None for an unquoted empty cell: a float is
+	accepted in a numeric column when it is the number the expected token denotes, None stands for the empty cell"""
+	if not isinstance(got, list):
+		return str(got)
+	if len(got) != len(exp_rows):
+		return f'{len(got)} rows (header included) for {len(exp_rows) - 1} queries'
+	for n, (gr, er) in enumerate(zip(got, exp_rows)):
+		if len(gr) != len(er):
+			return f'row {n} has {len(gr)} cells: {gr!r}, expected {er!r}'
+		for c, (x, y) in enumerate(zip(gr, er)):
+			if x is None:
+				x = ''
+			if isinstance(x, float) and n > 0 and c in NUMERIC_COLUMNS and y != '':
+				try:
+					if float(y) == x:
+						continue
+				except ValueError:
+					pass
+			if x != y:
+				return f'row {n} column {HEADER[c]!r} reads {x!r}, expected {y!r}'
+	return None
+
+
+def k_dialect(ctx, cases):
+	"""one result set (case['result']: a real query or a hand-built object on a generated database) exported by
+	CSVResultsExporter instances constructed with a csv DIALECT and / or keyword options (case['exports'] = [{dialect, opts,
+	to}, ...]).  Every output is read back by csv.reader and by csv.DictReader given exactly the same dialect object and
+	options, and must be header + one row per query, in order, with the documented cells (harness tables)."""
+	from gambit.results import CSVResultsExporter
+	for case in cases:
+		if STATE.get('script_violation') and not ctx.replaying:
+			ctx.count('skipped:result-set-after-a-sequence-violation')
+			ctx.case(case, nontrivial=False)
+			continue
+		g = get_db(case['db_seed'], case.get('lone_cr'))
+		spec = case['result']
+		results = run_query(g, spec) if spec['how'] == 'query' else build_results(g, spec)
+		a = abs_results(results)
+		exp_rows = [HEADER] + [expected_cells(g, it) for it in a['items']]
+		cells = [c for r in exp_rows[1:] for c in r]
+		has_cr = any('\r' in c for c in cells)
+		nontrivial = False
+		for n, ex in enumerate(case.get('exports') or []):
+			desc, opts = ex.get('dialect'), ex.get('opts') or {}
+			eff = _dialect_effective(desc, opts)
+			if not _dialect_in_domain(eff):
+				ctx.count('dialect:skipped-configuration-outside-the-judged-domain')
+				continue
+			if has_cr and not _dialect_cr_safe(eff):
+				ctx.count('dialect:skipped-cr-in-a-cell-and-dialect-leaves-cr-unquoted')
+				continue
+			registered = []
+			what = text = None
+			try:
+				kw = _dialect_kwargs(desc, opts, registered)
+				try:
+					exporter = CSVResultsExporter(**kw)
+					if ex.get('to') == 'path':
+						STATE['ndir'] = STATE.get('ndir', 0) + 1
+						p = os.path.join(STATE['scratch'], f'dialect{STATE["ndir"]}.csv')
+						exporter.export(p, results)
+						with open(p, newline='') as f:
+							text = f.read()
+						os.unlink(p)
+					else:
+						text = _export(exporter, results)
+				except Exception as e:
+					what = f'raised {type(e).__name__}: {e}'
+				if what is None:
+					try:
+						back = [list(r) for r in csv.reader(io.StringIO(text, newline=''), **kw)]
+					except Exception as e:
+						back = f'csv.reader raised {type(e).__name__}: {e}'
+					bad = _cells_differ(back, exp_rows)
+					if bad:
+						what = f'does not parse back (csv.reader with the same dialect and options) to header + one row per query with the documented cells: {bad}'
+				if what is None:
+					try:
+						rd = csv.DictReader(io.StringIO(text, newline=''), **kw)
+						rows = list(rd)
+						back = [list(rd.fieldnames or [])] + [[r[h] for h in HEADER] if set(r) == set(HEADER) else list(r.items()) for r in rows]
+					except Exception as e:
+						back = f'csv.DictReader raised {type(e).__name__}: {e}'
+					bad = _cells_differ(back, exp_rows)
+					if bad:
+						what = f'does not parse back (csv.DictReader with the same dialect and options) to one record per query with the documented columns: {bad}'
+			finally:
+				for name in registered:
+					csv.unregister_dialect(name)
+			ctx.count('dialect:exports-judged')
+			ctx.count('dialect:form-' + ('none' if desc is None else desc['form']) + ('+keywords' if opts else ''))
+			ctx.count('dialect:quoting-' + eff['quoting'])
+			sp = {c for c in (eff['delimiter'], eff['quotechar'], eff['escapechar'], '\r', '\n') if c}
+			if desc is not None and any(ch in sp or ord(ch) > 126 for c in cells for ch in c):
+				nontrivial = True
+			if what:
+				ctx.violation('dialect', case, f'export {n}: CSVResultsExporter(dialect={desc}, keywords {opts}) [effective csv parameters {eff}], written to '
+				              f'{"a path" if ex.get("to") == "path" else "a stream"}: {what}; expected rows {exp_rows!r}, output {text!r}', impl=text, spec=exp_rows)
+				break
+		ctx.case(case, nontrivial=nontrivial)
+
+
 KINDS = {'query': k_query, 'built': k_built, 'multiset': k_multiset, 'script': k_script, 'cli': k_cli, 'cliseq': k_cliseq, 'lonecr': k_lonecr, 'chunknone': k_chunknone, 'rows': k_rows, 'csvtext': k_csvtext,
-         'jsonstr': k_jsonstr, 'jsontext': k_jsontext}
+         'jsonstr': k_jsonstr, 'jsontext': k_jsontext, 'dialect': k_dialect}
 
 
 # ---- campaign ------------------------------------------------------------------------------
@@ -1921,6 +2173,48 @@ def _gen_script(rng, pool, chunks, nsets, db2):
 	return dict(db2=db2, results=results, exporters=exporters, steps=steps)
 
 
+def _cr_free_built(rng, g, spec):
+	"""steer a hand-built result description (see build_results) to taxa / genomes of the harness tables of `g` whose CSV-visible
+	strings hold no carriage return, and its labels likewise (so that dialects with an LF-only terminator are judged on it)"""
+	tk = [i for i, t in enumerate(g.taxa.values()) if '\r' not in t['name'] + (t['rank'] or '')]
+	gk = [i for i, x in enumerate(g.genomes.values()) if '\r' not in x['description']]
+	if not tk or not gk:
+		return spec
+	for it in spec['items']:
+		it['report'] = None if it['report'] is None else rng.choice(tk)
+		it['next'] = None if it['next'] is None else rng.choice(tk)
+		it['closest'] = [rng.choice(gk)] + it['closest'][1:]
+	spec['labels'] = [lab.replace('\r', '') for lab in spec['labels']]
+	return spec
+
+
+def _gen_dialect_exports(rng, n):
+	"""`n` exporter configurations inside the judged domain: dialect (standard / harness pool / random harness parameters, in
+	every way of passing it) alone or with keyword overrides; sometimes keywords only"""
+	out = []
+	while len(out) < n:
+		r = rng.random()
+		if r < 0.25:
+			desc = dict(form=rng.choice(STD_FORMS), name=rng.choice(list(STD_DIALECTS)))
+		elif r < 0.75:
+			desc = dict(form=rng.choice(HARNESS_FORMS), params=dict(rng.choice(HARNESS_DIALECTS)))
+		elif r < 0.93:
+			params = dict(delimiter=rng.choice([',', '\t', ';', '|', ':']), quoting=rng.choice(list(_QUOTING_D)), lineterminator=rng.choice(['\n', '\r\n']))
+			if rng.random() < 0.5:
+				params['escapechar'] = rng.choice(['\\', '!'])
+			if rng.random() < 0.3:
+				params['doublequote'] = False
+			if rng.random() < 0.3:
+				params['quotechar'] = "'"
+			desc = dict(form=rng.choice(HARNESS_FORMS), params=params)
+		else:
+			desc = None
+		opts = dict(rng.choice(DIALECT_OVERRIDES)) if desc is None or rng.random() < 0.4 else {}
+		if _dialect_in_domain(_dialect_effective(desc, opts)):
+			out.append(dict(dialect=desc, opts=opts, to=rng.choice(['mem', 'mem', 'mem', 'path'])))
+	return out
+
+
 def generate(ctx):
 	rng = ctx.rng
 	STATE['campaign'] = True
@@ -1992,6 +2286,42 @@ def generate(ctx):
 		for j in range(ctx.pick(12, 40)):
 			yield 'built', dict(db_seed=dbi, lone_cr=lone, **_gen_built(rng, pool, chunks))
 		ctx.count('stream:built', ctx.pick(12, 40))
+
+	# -- the CSV export under a csv DIALECT: every way of passing one, alone and with keyword overrides; read back with the same
+	#    (a) small scope, enumerated: every standard and harness dialect x every way of passing it x (alone + each override of the
+	#        pool), on two designated hand-built result sets per database 0: A without carriage returns, B with them
+	g0 = get_db(0, lone)
+	nt0, ng0 = len(g0.taxa), len(g0.genomes)
+	import numpy as np
+	def designated(labels):
+		d = int(np.float32(0.24242425).view(np.uint32))
+		items = [dict(success=True, pred=j % nt0, primary=None, closest=[j % ng0, d + j, None, j % 2 == 0], next=None if j % 3 == 0 else (j + 1) % nt0,
+		              warnings=[], error=None, report=None if j % 4 == 3 else j % nt0, closest_genomes=[]) for j in range(len(labels))]
+		return dict(how='built', items=items, labels=labels, files=[None] * len(labels), params=None, extra={})
+	set_a = _cr_free_built(rng, g0, designated(['plain', 'tab\there;semi|pipe:colon', 'say "cheese", please', "two\nlines 'apo'", 'na\u00efve \u03a9 \u83cc \U0001f600',
+	                                            'back\\slash!bang', '', ' lead and trail ']))
+	set_b = designated(['cr\r\nlf', 'mixed\r,x', 'q"\rx\t;|:', "\n\r'!\\"] + (LONE_CR if lone else []))
+	ndial = 0
+	for desc in [dict(form=f, name=nm) for nm in STD_DIALECTS for f in STD_FORMS] + [dict(form=f, params=dict(p)) for p in HARNESS_DIALECTS for f in HARNESS_FORMS]:
+		exports = [dict(dialect=desc, opts=dict(o), to='mem') for o in [{}] + DIALECT_OVERRIDES if _dialect_in_domain(_dialect_effective(desc, o))]
+		for rs in (set_a, set_b):
+			yield 'dialect', dict(db_seed=0, lone_cr=lone, result=rs, exports=exports)
+			ndial += 1
+	ctx.count('stream:dialect-enumerated', ndial)
+	ctx.extra['exhaustive_scope'] += (f'; csv dialects: each of {len(STD_DIALECTS)} standard dialects x {len(STD_FORMS)} ways of passing it and {len(HARNESS_DIALECTS)} harness dialects x '
+	                                  f'{len(HARNESS_FORMS)} ways, alone and with each of {len(DIALECT_OVERRIDES)} keyword overrides, on two designated result sets')
+	#    (b) random: real queries and hand-built objects on every database x random dialect configurations
+	for dbi in range(ndb):
+		g = get_db(dbi, lone)
+		for j in range(ctx.pick(14, 60)):
+			if rng.random() < 0.5:
+				rs = dict(_gen_query(rng, pool, chunks), how='query')
+			else:
+				rs = dict(_gen_built(rng, pool, chunks), how='built')
+				if rng.random() < 0.6:
+					rs = _cr_free_built(rng, g, rs)
+			yield 'dialect', dict(db_seed=dbi, lone_cr=lone, result=rs, exports=_gen_dialect_exports(rng, rng.randint(1, 5)))
+		ctx.count('stream:dialect', ctx.pick(14, 60))
 
 	# -- CLI
 	fn_pool = [x for x in pool if '/' not in x and '\x00' not in x and x not in ('', '.', '..') and '.' not in x]
